@@ -98,7 +98,7 @@ def run_c09(tier):
         "evaluations": 2 * len(cases), "distinct_nontrivial": n_nontrivial,
         "rule": "family pairs: a base file and a file overriding one or two attributes (every attribute, both orders, appended lists, "
                 "identical repeated entries, new keys, the empty file), also three files; family split: rich configurations cut into k ordered "
-                "pieces laid out over 7 layouts of files and -i patterns (glob order != lexical order of cleaned paths, ./ and ../ and // in "
+                "pieces laid out over 10 layouts of files and -i patterns (glob order != lexical order of cleaned paths, ./ and ../ and // in "
                 "patterns, pattern order vs name order); for each the tool's output on the file list must be byte-identical to its output on "
                 "the single file concretised from Merge.tla's result (diagnostics identical when rejected); family assoc (13824 triples) is "
                 "checked on the model only; non-trivial = more than one file",
@@ -107,5 +107,5 @@ def run_c09(tier):
         "known_findings_hit": {k: n for k, (f, n) in v.known_hit.items()},
     }, time.time() - t0, violations=len(v.violations), assumptions=[
         "the binding of the code's merge to Merge.tla is through byte-identical output of the tool on merged-by-tool vs merged-by-model input",
-        "file layouts are the seven listed in MC_Merge.tla"])
+        "file layouts are the ten listed in MC_Merge.tla"])
     return rc
